@@ -32,4 +32,28 @@ func genC36(o *Out) {
 		})
 	}
 	o.strList("ruleOrder", order)
+	// RateLimiter.Update: each of the three kinds of rule sets both fields
+	if fd := f.Func("RateLimiter", "Update"); fd != nil {
+		src := normSpace(f.Src(fd.Body))
+		o.boolean("updateSetsBothFields", strings.Contains(src, "case limit == rate.Inf: r.nolimit = true r.Limiter = nil") &&
+			strings.Contains(src, "case limit == 0, burst < 1: r.nolimit = false r.Limiter = nil") &&
+			strings.Contains(src, "default: r.nolimit = false r.Limiter = rate.NewLimiter(limit, burst)") &&
+			strings.Contains(src, "if r.Limiter == nil || (r.Limiter.Limit() != limit || r.Limiter.Burst() != burst) {"))
+	} else {
+		o.errf("RateLimiter.Update not found")
+	}
+	if fd := f.Func("RateLimiter", "Allow"); fd != nil {
+		o.boolean("allowFollowsFlagWithoutLimiter", strings.Contains(normSpace(f.Src(fd.Body)), "if r.Limiter == nil { return r.nolimit } return r.Limiter.Allow()"))
+	} else {
+		o.errf("RateLimiter.Allow not found")
+	}
+	// ruleByNode: membership is consulted before the state hash
+	if fd := f.Func("RateLimiterRules", "ruleByNode"); fd != nil {
+		src := normSpace(f.Src(fd.Body))
+		i1 := strings.Index(src, "case !exists(node):")
+		i2 := strings.Index(src, "case st.String() != l.Checksum():")
+		o.boolean("membershipBeforeHash", i1 >= 0 && i2 > i1 && strings.Contains(src[i2:], "default: return l, false, true"))
+	} else {
+		o.errf("RateLimiterRules.ruleByNode not found")
+	}
 }
